@@ -1007,8 +1007,8 @@ class CascadeFilter(FilterList):
 
   @elementwise("freq", 1)
   def freq_response(self, freq):
-    return reduce(operator.mul, (filt.freq_response(freq)
-                                 for filt in self.callables))
+    responses = [filt.freq_response(freq) for filt in self.callables]
+    return reduce(operator.mul, responses) if responses else 1 # Empty product
 
   @property
   def poles(self):
@@ -1069,8 +1069,8 @@ class ParallelFilter(FilterList):
 
   @elementwise("freq", 1)
   def freq_response(self, freq):
-    return reduce(operator.add, (filt.freq_response(freq)
-                                 for filt in self.callables))
+    responses = [filt.freq_response(freq) for filt in self.callables]
+    return reduce(operator.add, responses) if responses else 0 # Empty sum
 
   @property
   def poles(self):
